@@ -47,6 +47,10 @@ CLAIMED = {
          "Structural necessary condition of the 'rejected when encoding instead of truncated or mis-framed' clause: every length that is narrowed to its wire width is provably within that width at the conversion. (Layout agreement of sibling codecs and prefix/payload consumption are added as R2/R3 when implemented; until then they are not claimed.)",
          "Round-trip equality for all values is a functional statement and is not decided. 32-bit prefixes are outside the 8/16-bit rule.",
          "DESIGN.md §3 C18"),
+ "C20": ("cursor/bounds analysis of glob.Glob (interval fixpoint over its loop variables), abort reachability, loop-progress analysis on the SSA loop (every path around a loop strictly advances a loop variable, none moves backwards), path analysis of the consumers (argument order, first true element in slice order, merge iff match, once per block)",
+         "Structural necessary conditions of the totality clause (no out-of-range index for any pattern/input, no abort, no state-preserving path around a loop) and of the 'consequently' clause (the consumers ask Glob(pattern, input) and act on the first match / on each matching block once, in order). That Glob computes glob matching is a functional statement and is not decided (the pinned matcher's missing backtracking, F6, was found by reading and repaired, not detected by this check).",
+         "Trusts go/ssa. The progress rule is a necessary condition of termination, not a termination proof.",
+         "DESIGN.md §3 C20"),
 }
 
 NOT_APPLICABLE = {
